@@ -17,7 +17,7 @@ for d in seeded/*/; do
     if [ -f "replays/$id/$(basename $f)" ]; then got="(already a committed replay: $(basename $f))"; break; fi
     if ./check --replay "$f" 2>/dev/null | grep -q "property held"; then
       # and it must fail with the patch (the shrunk case, not an unrelated saved input)
-      cp "$f" replays/$id/seed-$n.json; got=1; break
+      mkdir -p replays/$id; cp "$f" replays/$id/seed-$n.json; got=1; break
     fi
   done
   rm -rf $K
